@@ -24,12 +24,63 @@ if not ok:
     if mine:
         broken.append(("forbidden-vernacular", "\n".join(mine)))
 
+# 2./3. (in the background, while coqc works) binaries from the working tree, then the exploration
+def build_sc(name, race):
+    exe = os.path.join(BIN, "%s.%d" % (name, os.getpid()))
+    ck.tmpbins.append(exe)
+    cmd = ["go", "build", "-tags", "verif", "-o", exe]
+    if REPO != "/repo":
+        cmd.append("-trimpath")      # scratch worktrees share the build cache
+    if race:
+        cmd.append("-race")
+    cmd.append("./cmd/staticcheck")
+    rc, o = sh(cmd, cwd=REPO, timeout=2400)
+    return (exe if rc == 0 else None), o
+
+work = ck.mkscratch()
+res = os.path.join(work, "out.json")
+bg = {}
+def explore():
+    race_res = {}
+    def build_race():
+        race_res["exe"], race_res["out"] = build_sc("staticcheck06race", True)
+    rt = threading.Thread(target=build_race)
+    rt.start()
+    sc, out = build_sc("staticcheck06", False)
+    if sc is None:
+        rt.join()
+        bg["fatal"] = ("build", "staticcheck does not build with -tags verif", out[-3000:])
+        return
+    exe, out = ck.go_build("./cmd/hc06")
+    rt.join()
+    if exe is None:
+        bg["fatal"] = ("harness-build", "harness does not build", out[-3000:])
+        return
+    ck.log("binaries built")
+    race = race_res.get("exe")
+    if race is None:
+        bg["race_build_log"] = (race_res.get("out") or "")[-2000:]
+    args = [exe, "-bin", sc, "-work", work, "-out", res, "-seed", str(ck.seed), "-repo", REPO]
+    if race:
+        args += ["-racebin", race]
+    if ck.thorough():
+        args += ["-same", "40", "-partial", "12", "-race", "4", "-par", "4", "-racerepo", "./lintcmd/runner,./internal/sync,./analysis/lint,./unused"]
+    else:
+        args += ["-same", "5", "-partial", "2", "-race", "1", "-par", "4", "-traced", "1", "-text=false"]
+    env = dict(GOENV); env["VERIF_REPO"] = REPO
+    rc, out = sh(args, timeout=6 * 3600, env=env)
+    if rc != 0 or not os.path.exists(res):
+        bg["fatal"] = ("harness-run", "harness run failed: " + out[-500:], out[-3000:])
+    ck.log("exploration done")
+bgt = threading.Thread(target=explore)
+bgt.start()
+
 # 1. translator + theorems
 ok, out = ck.genmodel()
 if not ok:
     broken.append(("genmodel (lintcmd/cmd.go:printDiagnostics sort closure / runner.go shape not recognised)", out[-2000:]))
 model_ok = True
-ok, out = ck.coq_make(["Model/C06.vo", "Model/C06_Out.vo", "Proofs/C06_Global.vo", "Proofs/C06_Out.vo", "Examples/C06.vo"])
+ok, out = ck.coq_make(["Model/C06.vo", "Model/C06_Out.vo", "Proofs/C06_Global.vo", "Proofs/C06_Out.vo", "Proofs/C06_Indep.vo", "Examples/C06.vo"])
 if not ok:
     broken.append(("coq-make", out[-3000:]))
     ok2, out2 = ck.coq_make(["Model/C06.vo", "Model/C06_Out.vo"])
@@ -52,59 +103,16 @@ if not ok:
             if mm:
                 which = mm.group(1); break
     broken.append(("Props/C06.v" + (": " + which if which else ""), out[-2500:]))
+bgt.join()
 if not model_ok:
     ck.violation("coq-model-broken", "Coq model of C06 does not compile", {"log": broken[-1][1]}, no_input=True)
     ck.finish({"explanation": "model did not compile", "evaluations": 1, "distinct_nontrivial": 0, "rule": "n/a", "samples": ["model did not compile"]})
-
-# 2. binaries from the working tree
-def build_sc(name, race):
-    exe = os.path.join(BIN, "%s.%d" % (name, os.getpid()))
-    ck.tmpbins.append(exe)
-    cmd = ["go", "build", "-tags", "verif", "-o", exe]
-    if REPO != "/repo":
-        cmd.append("-trimpath")      # scratch worktrees share the build cache
-    if race:
-        cmd.append("-race")
-    cmd.append("./cmd/staticcheck")
-    rc, o = sh(cmd, cwd=REPO, timeout=2400)
-    return (exe if rc == 0 else None), o
-
-race_res = {}
-def build_race():
-    race_res["exe"], race_res["out"] = build_sc("staticcheck06race", True)
-rt = threading.Thread(target=build_race)
-rt.start()
-sc, out = build_sc("staticcheck06", False)
-if sc is None:
-    rt.join()
-    ck.violation("build", "staticcheck does not build with -tags verif", {"log": out[-3000:]}, no_input=True)
-    ck.finish({"explanation": "build failed", "evaluations": 1, "distinct_nontrivial": 0, "rule": "n/a", "samples": ["build failed"]})
-exe, out = ck.go_build("./cmd/hc06")
-if exe is None:
-    rt.join()
-    ck.violation("harness-build", "harness does not build", {"log": out[-3000:]}, no_input=True)
-    ck.finish({"explanation": "harness build failed", "evaluations": 1, "distinct_nontrivial": 0, "rule": "n/a", "samples": ["harness build failed"]})
-rt.join()
-ck.log("binaries built")
-race = race_res.get("exe")
-if race is None:
-    broken.append(("race-build", (race_res.get("out") or "")[-2000:]))
-
-# 3. exploration on the real binary
-work = ck.mkscratch()
-res = os.path.join(work, "out.json")
-args = [exe, "-bin", sc, "-work", work, "-out", res, "-seed", str(ck.seed), "-repo", REPO]
-if race:
-    args += ["-racebin", race]
-if ck.thorough():
-    args += ["-same", "40", "-partial", "12", "-race", "4", "-par", "4", "-racerepo", "./lintcmd/runner,./internal/sync,./analysis/lint,./unused"]
-else:
-    args += ["-same", "6", "-partial", "2", "-race", "1", "-par", "4", "-traced", "2"]
-env = dict(GOENV); env["VERIF_REPO"] = REPO
-rc, out = sh(args, timeout=7200, env=env)
-if rc != 0 or not os.path.exists(res):
-    ck.violation("harness-run", "harness run failed: " + out[-500:], {"log": out[-3000:]}, no_input=True)
-    ck.finish({"explanation": "harness run failed", "evaluations": 1, "distinct_nontrivial": 0, "rule": "n/a", "samples": ["harness run failed"]})
+if "fatal" in bg:
+    k, w, l = bg["fatal"]
+    ck.violation(k, w, {"log": l}, no_input=True)
+    ck.finish({"explanation": w, "evaluations": 1, "distinct_nontrivial": 0, "rule": "n/a", "samples": [w]})
+if "race_build_log" in bg:
+    broken.append(("race-build", bg["race_build_log"]))
 data = json.load(open(res))
 runs = data["Runs"]
 ck.log("harness: %d runs, %d violations" % (len(runs), len(data.get("Violations") or [])))
